@@ -1625,6 +1625,19 @@ BENIGN = [
         lmb = backend.getLargeBlock(allocationSize);
         if (!lmb) {
             if (haveRef) removeBackRef(backRefIdx);""")]),
+    dict(name='c14-b-handler-busy-lowered-by-a-scope-guard', prop='C14', edits=[('include/oneapi/tbb/detail/_aggregator.h',
+        """        // handle all the operations
+        handle_operations(op_list);
+
+        // release the handler
+        handler_busy.store(0, std::memory_order_release);""",
+        """        // release the handler on every exit
+        struct busy_guard {
+            std::atomic<uintptr_t>& busy;
+            ~busy_guard() { busy.store(0, std::memory_order_release); }
+        } guard{handler_busy};
+        // handle all the operations
+        handle_operations(op_list);""")]),
     dict(name='c01-b-group-wait-epilogue-in-a-named-lambda', prop='C01', edits=[('include/oneapi/tbb/task_group.h',
         """        try_call([&] {
             d1::wait(m_wait_vertex.get_context(), context());
